@@ -544,10 +544,14 @@ class FormulTranslator:
         if len(loops) != 1:
             raise Untranslatable('lcapy/statespacemaker.py: loop over inductors + capacitors not found')
         lp = loops[0]
+        if len(lp.body) < 2:
+            self.fail(lp, 'unexpected state-variable loop')
         if src(lp.body[0]) != 'name = cpt_map[elt.name]' or not isinstance(lp.body[1], ast.If) or src(lp.body[1].test) != 'isinstance(elt, L)':
             self.fail(lp, 'unexpected state-variable loop')
         lb = [src(x) for x in lp.body[1].body]
         cb = [src(x) for x in lp.body[1].orelse]
+        if len(lb) != 3 or len(cb) != 3:
+            self.fail(lp.body[1], 'the inductor / capacitor branches must set expr, var and x0 (initial value of THAT state variable)')
         if lb[0] != 'expr = sscct[name].v / elt.cpt.L' or lb[2] != 'x0 = elt.cpt.i0':
             self.fail(lp.body[1], 'unexpected inductor state equations')
         res['L_var'] = {'var = -sscct[name].isc': '(fopp 1)', 'var = sscct[name].isc': '1'}.get(lb[1])
@@ -562,10 +566,16 @@ class FormulTranslator:
         self.ss = res
 
     def translate_all(self):
-        self.translate_leaf()
-        self.translate_nodal()
-        self.translate_mesh()
-        self.translate_ss()
+        # fail closed: whatever goes wrong while walking the syntax tree (a statement list shorter than the
+        # recognised shape, a missing attribute, ...) is an Untranslatable source, never a raw Python error
+        for step in (self.translate_leaf, self.translate_nodal, self.translate_mesh, self.translate_ss):
+            try:
+                step()
+            except Untranslatable:
+                raise
+            except (IndexError, KeyError, AttributeError, TypeError, ValueError, AssertionError) as e:
+                raise Untranslatable('%s: %s: source is outside the recognised shape (%s: %s)' % (
+                    self.cur, step.__name__, type(e).__name__, str(e)[:120]))
         return self
 
 
